@@ -10,6 +10,7 @@ import (
 	"path/filepath"
 	"reflect"
 	"regexp"
+	"slices"
 	"sort"
 	"strings"
 	"sync"
@@ -284,6 +285,14 @@ func c19BuildOne(r *rand.Rand, kp *keys.Pair, observe bool) (*c19Shared, error) 
 	if err := signature.SignSteps(bg, s.pipe.Steps, kp.Signer, "repo", signature.WithEnv(s.penv)); err != nil {
 		return nil, err
 	}
+	// a signature record may list its fields in any order (another implementation, a hand-written record): every
+	// other shared step gets its list reversed; verification does not depend on the order and must not "repair" it
+	nth := 0
+	allCommandSteps(s.pipe.Steps, func(_ string, st *pipeline.CommandStep) {
+		if nth++; nth%2 == 0 && st.Signature != nil {
+			slices.Reverse(st.Signature.SignedFields)
+		}
+	})
 	if observe {
 		pj, err := safeJSONMarshal(s.pipe)
 		if err != nil {
